@@ -100,12 +100,14 @@ def classes():
             StringTransport.__init__(self)
             self.rec, self.id, self.live = rec, did, True
 
-        def write(self, data):
-            self.rec.obs["dw"] += 1
+        def write(self, data):            # what is done to a dead transport has no effect anybody could see
+            if self.live:
+                self.rec.obs["dw"] += 1
             StringTransport.write(self, data)
 
         def loseConnection(self):
-            self.rec.obs["dcl"].append(self.id)
+            if self.live:
+                self.rec.obs["dcl"].append(self.id)
             StringTransport.loseConnection(self)
 
         def registerProducer(self, producer, streaming):
@@ -353,11 +355,11 @@ def run_history(cfg, ops):
             elif k == "dpump":
                 if dt is None or not dt.live or dt.producer is None:
                     continue
-                n = 0
-                while dt.producer is not None and n < 20:
+                n, prod = 0, dt.producer
+                while dt.producer is prod and n < 20:     # this producer only: one pipelined after it is a new pump
                     n += 1
                     try:
-                        dt.producer.resumeProducing()
+                        prod.resumeProducing()
                     except Exception as e:
                         rec.errs[type(e).__name__] = rec.errs.get(type(e).__name__, 0) + 1
                         break
